@@ -464,6 +464,8 @@ def rowViolation (run : Run) (r : Row) : Option String :=
     let seq := p.seq
     let decoy := r.label == -1
     if r.label != 1 && r.label != -1 then some "label_not_pm1" else
+    -- the reported discriminant score is finite whether the rescoring model was fitted or the heuristic fallback used
+    if !(f32finite r.discriminant) then some "discriminant_score_not_finite" else
     let names := splitOn 59 r.proteins
     if names.length != r.numProteins then some "num_proteins" else
     if seq.length != r.peptideLen then some "peptide_len" else
